@@ -278,6 +278,12 @@ def _install_guard():
                        "shutil.move", "shutil.copyfile"):
             if not ok(args[0]):
                 raise HarnessGap(f"real-disk mutation attempted in model mode: {event}{args!r}")
+        elif event == "sqlite3.connect":
+            # CrossHair's own side-effect wall is opened for this event (SQLite-backed index cubes); only private in-memory
+            # databases may pass
+            db = str(args[0])
+            if not (db == ":memory:" or ("mode=memory" in db and db.startswith("file:"))):
+                raise HarnessGap(f"on-disk SQLite database opened in model mode: {db!r}")
 
     sys.addaudithook(hook)
 
